@@ -349,6 +349,91 @@ func c07SignedSequence(r *core.Run, idx int, rng *rand.Rand) {
 	}
 }
 
+// c07AfterManyRefusals: ONE provider first refuses a few dozen requests at its signature checks (foreign key, content
+// changed after signing, garbage signature values - on both bindings and on the attribute service), then gets a
+// correctly signed request of a registered service provider: what was refused before must not matter.
+func c07AfterManyRefusals(r *core.Run, idx int, rng *rand.Rand) {
+	const wl = "after_many_refusals"
+	e := env.Static(env.Opts{WantSigned: "true"})
+	d := stdSP(0)
+	d.AuthnRequestsSigned = "true"
+	mustRegister(e.W, d, "appA")
+	u := randUser(rng, fmt.Sprintf("U_MK%dx", idx), false)
+	e.W.AddUser(u)
+	refused := 0
+	for k := 0; k < 40; k++ {
+		var call *env.Call
+		switch rng.Intn(4) {
+		case 0: // redirect, signed with a key that is not registered
+			a := validAuthn(rng, d)
+			s := ssoSend{Binding: "redirect", XML: a.XML(rng), HasRelay: true, Relay: "MKrelay", SignKey: keys.Get("attacker"), Alg: spsim.AlgRSASHA256}
+			call, _ = s.do(e)
+		case 1: // redirect, garbage signature value
+			a := validAuthn(rng, d)
+			s := ssoSend{Binding: "redirect", XML: a.XML(rng), Extra: []string{"SigAlg", spsim.AlgRSASHA256, "Signature", spsim.B64([]byte("garbage" + randHex(rng, 8)))}}
+			call, _ = s.do(e)
+		case 2: // POST, content changed after signing
+			a := validAuthn(rng, d)
+			sx, err := spsim.SignEnveloped(a.XML(rng), d.Cert, spsim.XMLSignOpts{Alg: spsim.AlgRSASHA256, DropKey: rng.Intn(2) == 0})
+			if err != nil {
+				panic(err)
+			}
+			sx = strings.Replace(sx, `Version="2.0"`, `Version="2.0" ProviderName="changed"`, 1)
+			call = e.Do(env.Req{Method: "POST", Path: env.PathSSO, Body: spsim.FormBody("SAMLRequest", spsim.B64([]byte(sx)))})
+		default: // attribute query signed with a key that is not registered, no KeyInfo
+			q := conformantQuery(rng, d, u.Username)
+			sx, err := spsim.SignEnveloped(q.QueryNode().Render(q.Style.Indent), keys.Get("attacker"), spsim.XMLSignOpts{Alg: spsim.AlgRSASHA256, DropKey: true})
+			if err != nil {
+				panic(err)
+			}
+			call = e.Do(env.Req{Method: "POST", Path: env.PathAttr, Body: q.Envelope(strings.TrimSpace(strings.TrimPrefix(sx, `<?xml version="1.0" encoding="UTF-8"?>`))), CT: "text/xml"})
+		}
+		if call.Panic == "" && !call.Accepted() && !call.D.Success() {
+			refused++
+		}
+	}
+	r.Count("requests_refused_before_the_good_one", int64(refused))
+	for _, kind := range []string{"authn_post", "authn_redirect", "query"} {
+		var call *env.Call
+		ok := false
+		t0 := time.Now()
+		switch kind {
+		case "authn_post":
+			a := validAuthn(rng, d)
+			sx, err := spsim.SignEnveloped(a.XML(rng), d.Cert, spsim.XMLSignOpts{Alg: spsim.AlgRSASHA256})
+			if err != nil {
+				panic(err)
+			}
+			call = e.Do(env.Req{Method: "POST", Path: env.PathSSO, Body: spsim.FormBody("SAMLRequest", spsim.B64([]byte(sx)))})
+			ok = call.Accepted()
+		case "authn_redirect":
+			a := validAuthn(rng, d)
+			s := ssoSend{Binding: "redirect", XML: a.XML(rng), HasRelay: true, Relay: "MKrelay", SignKey: d.Cert, Alg: spsim.AlgRSASHA256}
+			call, _ = s.do(e)
+			ok = call.Accepted()
+		default:
+			q := conformantQuery(rng, d, u.Username)
+			sx, err := spsim.SignEnveloped(q.QueryNode().Render(q.Style.Indent), d.Cert, spsim.XMLSignOpts{Alg: spsim.AlgRSASHA256})
+			if err != nil {
+				panic(err)
+			}
+			call = e.Do(env.Req{Method: "POST", Path: env.PathAttr, Body: q.Envelope(strings.TrimSpace(strings.TrimPrefix(sx, `<?xml version="1.0" encoding="UTF-8"?>`))), CT: "text/xml"})
+			ok = call.D.Success()
+		}
+		class := "after_many_refusals|" + kind
+		r.Eval(fmt.Sprintf("%s|%d", class, idx))
+		if call.Panic != "" {
+			r.Violate(core.Violation{Clause: "panic", Class: class, Reason: call.Panic, Workload: wl, Index: idx, Observed: call.Describe()})
+			return
+		}
+		if !ok {
+			r.Violate(core.Violation{Clause: "conformant_request_rejected_after_refusals", Class: class, Reason: fmt.Sprintf("a correctly signed %s was not accepted (status %d %s, after %s) on a provider that had refused %d badly signed requests before", kind, call.D.Status, clipS(string(call.D.Body), 160), time.Since(t0).Round(time.Millisecond), refused), Workload: wl, Index: idx, Observed: call.Describe()})
+			return
+		}
+		r.Count("accepted_after_many_refusals", 1)
+	}
+}
+
 // c07AbortedNeighbour: two requests of one service provider overlap on one provider; the client of the first goes
 // away while its service-provider lookup is pending (its context is cancelled, the lookup fails with the context's
 // error). The second, conformant request has nothing to do with that and must be accepted.
@@ -497,6 +582,7 @@ func init() {
 			r.Require("multi_host_concurrent_accepted", 500)
 			r.Require("accepted_beside_aborted_neighbour", 50)
 			r.Require("signed_sequence_accepted", 300)
+			r.Require("accepted_after_many_refusals", 30)
 			r.Require("endpoint_with_query_requests", 100)
 			r.Require("uptime_accepted", 100)
 			return []core.Workload{
@@ -513,6 +599,7 @@ func init() {
 				}},
 				{Name: "aborted_neighbour", N: c.Pick(60, 600), Fn: c07AbortedNeighbour},
 				{Name: "signed_request_sequences", N: c.Pick(60, 600), Fn: c07SignedSequence},
+				{Name: "after_many_refusals", N: c.Pick(12, 60), Fn: c07AfterManyRefusals},
 				{Name: "advertised_location_with_query", N: c.Pick(120, 1200), Fn: c07EndpointQuery},
 			}
 		},
